@@ -71,7 +71,8 @@ def parse_output(text):
             else:
                 lines.append(ln)
         elif cur is not None:
-            lines.append(ln)
+            if not ln.startswith("~"):      # implementation-only information lines are not compared
+                lines.append(ln)
     if cur is not None:
         res[cur] = (lines, "ABORTED")
     return res
